@@ -453,3 +453,183 @@ M('c19-serial-executor-not-selected-for-false', 'C19', 'R8', SYNC,
 # the wrapper ignores the chosen executor
 M('c19-serial-executor-ignored-by-wrapper', 'C19', 'R8', SYNC,
   "run_in_executor(\n            executor, partial(func, *args, **kwargs)", "run_in_executor(\n            None, partial(func, *args, **kwargs)")
+
+
+# ---------------------------------------------------------------------------
+# Second preserving wave (k2-*): "refactoring + break" operators for every shape the rules now READ (the refactoring alone is silent).
+# ---------------------------------------------------------------------------
+SY = 'falcon/util/sync.py'
+_K2_LOCKED = """        with self._compile_lock:
+            if self._find == self._compile_and_find:
+                # NOTE(caselit): replace the find with the result of the
+                # router compilation
+                self._find = self._compile()
+"""
+_K2_STUB_RET = """        return self._find(
+            path, self._return_values, self._patterns, self._converters, params
+        )
+"""
+_K2_RESET = """        self._return_values = []
+        self._patterns = []
+        self._converters = []
+
+        self._ast = _CxParent()
+"""
+_K2_INSTCONV = "    def _instantiate_converter(\n"
+_K2_EXEC_SEL = """    if threadsafe is None or threadsafe:
+        executor = None  # Use default
+    else:
+        executor = _one_thread_to_rule_them_all
+"""
+
+
+def _k2_ensure(id, body, extra=(), also=()):
+    """the lock moved into a same-class helper `_ensure_compiled()` that the stub calls (silent when the helper is right)"""
+    M2(id, 'C19', 'R1', [{'file': RT, 'old': _K2_LOCKED, 'new': "        self._ensure_compiled()\n"},
+                          {'file': RT, 'old': _K2_INSTCONV, 'new': "    def _ensure_compiled(self):\n" + body + "\n" + _K2_INSTCONV}] + list(extra), also=also)
+
+
+_k2_ensure('c19-k2-ensure-helper-no-recheck', "        with self._compile_lock:\n            self._find = self._compile()\n")
+_k2_ensure('c19-k2-ensure-helper-publishes-outside-lock',
+           "        with self._compile_lock:\n            stale = self._find == self._compile_and_find\n        if stale:\n            self._find = self._compile()\n")
+_k2_ensure('c19-k2-ensure-helper-stub-routes-with-stale-tables',
+           "        with self._compile_lock:\n            if self._find == self._compile_and_find:\n                self._find = self._compile()\n",
+           extra=[{'file': RT, 'old': _K2_STUB_RET, 'new': "        return self._find(path, _return_values, _patterns, _converters, params)\n"}], also=('C01',))
+M2('c19-k2-ensure-helper-called-after-routing', 'C19', 'R1', [
+    {'file': RT, 'old': _K2_LOCKED, 'new': ""},
+    {'file': RT, 'old': _K2_STUB_RET,
+     'new': "        result = self._find(path, self._return_values, self._patterns, self._converters, params)\n        self._ensure_compiled()\n        return result\n"},
+    {'file': RT, 'old': _K2_INSTCONV, 'new': "    def _ensure_compiled(self):\n        with self._compile_lock:\n            if self._find == self._compile_and_find:\n"
+                                             "                self._find = self._compile()\n\n" + _K2_INSTCONV}])
+# acquire() / try / finally release() read as a lock region
+M('c19-k2-acquire-release-publishes-after-release', 'C19', 'R1', RT, _K2_LOCKED, """        self._compile_lock.acquire()
+        try:
+            stale = self._find == self._compile_and_find
+        finally:
+            self._compile_lock.release()
+        if stale:
+            self._find = self._compile()
+""")
+# double-checked locking read (routing without the lock only where a test found the finder already published)
+M('c19-k2-double-checked-without-inner-check', 'C19', 'R1', RT, _K2_LOCKED, """        if self._find == self._compile_and_find:
+            with self._compile_lock:
+                self._find = self._compile()
+""")
+M('c19-k2-double-checked-wrong-polarity', 'C19', 'R1', RT, _K2_LOCKED, """        if self._find != self._compile_and_find:
+            with self._compile_lock:
+                if self._find == self._compile_and_find:
+                    self._find = self._compile()
+""")
+# table resets in a helper (same-class: k2-c19-2; module-level function handed `self`)
+M2('c19-k2-reset-method-clears-in-place', 'C19', 'R6', [
+    {'file': RT, 'old': _K2_RESET, 'new': "        self._reset_compiled_state()\n"},
+    {'file': RT, 'old': _K2_INSTCONV, 'new': """    def _reset_compiled_state(self) -> None:
+        self._return_values.clear()
+        self._patterns = []
+        self._converters = []
+        self._ast = _CxParent()
+
+""" + _K2_INSTCONV}], also=('C01',))
+M2('c19-k2-reset-function-clears-in-place', 'C19', 'R6', [
+    {'file': RT, 'old': _K2_RESET, 'new': "        _reset_tables(self)\n"},
+    {'file': RT, 'old': "\nclass CompiledRouter:", 'new': """
+def _reset_tables(router):
+    router._return_values = []
+    router._patterns.clear()
+    router._patterns = []
+    router._converters = []
+    router._ast = _CxParent()
+
+
+class CompiledRouter:"""}], also=('C01',))
+M2('c19-k2-reset-function-forgets-a-table', 'C19', None, [
+    {'file': RT, 'old': _K2_RESET, 'new': "        _reset_tables(self)\n"},
+    {'file': RT, 'old': "\nclass CompiledRouter:", 'new': """
+def _reset_tables(router):
+    router._return_values = []
+    router._converters = []
+    router._ast = _CxParent()
+
+
+class CompiledRouter:"""}], also=('C01',))
+M('c19-k2-table-cleared-through-local-alias', 'C19', None, RT, _K2_RESET, """        patterns = self._patterns
+        patterns.clear()
+        self._return_values = []
+        self._converters = []
+
+        self._ast = _CxParent()
+""", also=('C01',))
+M('c19-k2-tuple-rebinding-plus-slice-delete', 'C19', None, RT, _K2_RESET, """        self._return_values, self._converters = [], []
+        del self._patterns[:]
+
+        self._ast = _CxParent()
+""", also=('C01',))
+
+
+# R8: the executor chosen by a module-level selector / one of two coroutine functions
+def _k2_pick(id, body):
+    M2(id, 'C19', 'R8', [{'file': SY, 'old': _K2_EXEC_SEL, 'new': "    executor = _pick_executor(threadsafe)\n"},
+                          {'file': SY, 'old': "\ndef wrap_sync_to_async(\n", 'new': "\ndef _pick_executor(threadsafe):\n" + body + "\n\ndef wrap_sync_to_async(\n"}])
+
+
+_k2_pick('c19-k2-selector-returns-fresh-executor', "    if threadsafe is None or threadsafe:\n        return None\n    return ThreadPoolExecutor(max_workers=1)\n")
+_k2_pick('c19-k2-selector-inverted', "    if threadsafe is None or threadsafe:\n        return _one_thread_to_rule_them_all\n    return None\n")
+_k2_pick('c19-k2-selector-falls-off-the-end', "    if threadsafe:\n        return _one_thread_to_rule_them_all\n")
+M('c19-k2-two-wrappers-serial-one-uses-default-pool', 'C19', 'R8', SY, _K2_EXEC_SEL + """
+    @wraps(func)
+    async def wrapper(*args: Any, **kwargs: Any) -> Any:
+        return await asyncio.get_running_loop().run_in_executor(
+            executor, partial(func, *args, **kwargs)
+        )
+
+    return wrapper
+""", """    if threadsafe is None or threadsafe:
+
+        @wraps(func)
+        async def wrapper(*args: Any, **kwargs: Any) -> Any:
+            return await asyncio.get_running_loop().run_in_executor(
+                None, partial(func, *args, **kwargs)
+            )
+
+        return wrapper
+
+    @wraps(func)
+    async def serial_wrapper(*args: Any, **kwargs: Any) -> Any:
+        return await asyncio.get_running_loop().run_in_executor(
+            None, partial(func, *args, **kwargs)
+        )
+
+    return serial_wrapper
+""")
+# R4: params built by a helper
+M2('c19-k2-params-helper-hands-out-shared-dict', 'C19', None, [
+    {'file': RT, 'old': "        params: Dict[str, Any] = {}\n", 'new': "        params: Dict[str, Any] = _new_params()\n"},
+    {'file': RT, 'old': "\nclass CompiledRouter:", 'new': "\n_PARAMS: dict = {}\n\n\ndef _new_params():\n    return _PARAMS\n\n\nclass CompiledRouter:"}], also=('C01',))
+# R3: a hoisted literal table is fine while it is only read through copies; mutated (directly / through a local alias) it is shared state
+_K2_HEAD = """        src_lines = [
+            'def find(path, return_values, patterns, converters, params):',
+            _TAB_STR + 'path_len = len(path)',
+        ]
+"""
+_K2_HEAD_DEF = {'file': RT, 'old': "_TAB_STR = ' ' * 4\n",
+                'new': "_TAB_STR = ' ' * 4\n_FINDER_HEAD = [\n    'def find(path, return_values, patterns, converters, params):',\n    _TAB_STR + 'path_len = len(path)',\n]\n"}
+M2('c19-k2-hoisted-table-appended-through-alias', 'C19', 'R3', [_K2_HEAD_DEF, {'file': RT, 'old': _K2_HEAD, 'new': "        src_lines = _FINDER_HEAD\n"}], also=('C01',))
+M2('c19-k2-hoisted-table-mutated', 'C19', 'R3', [_K2_HEAD_DEF, {'file': RT, 'old': _K2_HEAD, 'new': "        _FINDER_HEAD.append('x')\n        src_lines = list(_FINDER_HEAD)\n"}],
+   also=('C01',))
+# the lock taken in a module-level function handed the router (read as a method view)
+M2('c19-k2-lock-function-no-recheck', 'C19', 'R1', [
+    {'file': RT, 'old': _K2_LOCKED, 'new': "        _ensure_compiled(self)\n"},
+    {'file': RT, 'old': "\nclass CompiledRouter:", 'new': "\ndef _ensure_compiled(router):\n    with router._compile_lock:\n        router._find = router._compile()\n\n\nclass CompiledRouter:"}])
+M2('c19-k2-lock-function-publishes-placeholder-first', 'C19', 'R1', [
+    {'file': RT, 'old': _K2_LOCKED, 'new': "        _ensure_compiled(self)\n"},
+    {'file': RT, 'old': "\nclass CompiledRouter:", 'new': "\ndef _ensure_compiled(router):\n    with router._compile_lock:\n        if router._find == router._compile_and_find:\n"
+                                                       "            router._find = None\n            router._find = router._compile()\n\n\nclass CompiledRouter:"}])
+# k3-c12-2: a constructor-only helper of a shared instance may store into self; the same helper also called per request may not
+_K2_JSON_BIND = """        # PERF(kgriffs): Test dumps once up front so we can set the
+        #     proper serialize implementation.
+        result = self._dumps({'message': 'Hello World'})
+"""
+M2('c19-k3-ctor-helper-also-called-per-request', 'C19', 'R3', [
+    {'file': 'falcon/media/json.py', 'old': _K2_JSON_BIND, 'new': "        self._bind_serializers()\n\n    def _bind_serializers(self) -> None:\n" + _K2_JSON_BIND},
+    {'file': 'falcon/media/json.py', 'old': "    def _deserialize(self, data: bytes) -> Any:\n        if not data:\n",
+     'new': "    def _deserialize(self, data: bytes) -> Any:\n        self._bind_serializers()\n        if not data:\n"}], also=('C12',))
